@@ -101,15 +101,17 @@ func (s *socket) RecvMsg() (*protocol.Message, error) {
 	// For now this uses a simple unified queue for the entire
 	// socket.  Later we can look at moving this to priority queues
 	// based on socket pipes.
+	tq := nilQ
+	s.Lock()
+	if s.recvExpire > 0 {
+		tq = time.After(s.recvExpire)
+	}
+	s.Unlock()
 	for {
 		s.Lock()
 		rq := s.recvQ
 		cq := s.closeQ
 		zq := s.sizeQ
-		tq := nilQ
-		if s.recvExpire > 0 {
-			tq = time.After(s.recvExpire)
-		}
 		s.Unlock()
 
 		select {
